@@ -519,6 +519,18 @@ func (gb *gcpBalancer) UpdateSubConnState(sc balancer.SubConn, scs balancer.SubC
 		delete(gb.scStates, oldSc)
 		gb.scRefs[sc] = scRef
 		scRef.subConn = sc
+		// The affinity keys bound to this channel, and the fallback mappings to it, follow the
+		// channel to its fresh SubConn.
+		for k, v := range gb.affinityMap {
+			if v == oldSc {
+				gb.affinityMap[k] = sc
+			}
+		}
+		for k, v := range gb.fallbackMap {
+			if v == oldSc {
+				gb.fallbackMap[k] = sc
+			}
+		}
 		atomic.StoreUint32(&scRef.deCalls, 0)
 		scRef.respMu.Lock()
 		scRef.lastResp = time.Now()
